@@ -12,6 +12,8 @@ src: conf.c
 backend: sat
 timeout: 200
 funcs: spifconf_parse_line
+native: conf_replay
+native_includes: conf.c
 */
 #include "vprelude.h"
 #include "env_conf.h"
